@@ -545,6 +545,31 @@ def read_ndjson(path):
 # --------------------------------------------------------------------------
 # TLC state dumps (-dump file): list of {var: value}
 # --------------------------------------------------------------------------
+def apalache_check(module, cinit, init, inv, length, expect_error=False, timeout=1200):
+    """apalache-mc check on spec/<module>.tla; returns a model dict like run_tlc. Raises MachineryError when the
+    outcome is not the expected one (NoError, or a reported invariant violation for a sensitivity run)."""
+    out_dir = workdir("apalache", "%s_%d" % (module, os.getpid()), fresh=True)
+    cmd = ["apalache-mc", "check", "--cinit=" + cinit, "--init=" + init, "--inv=" + inv, "--length=%d" % length,
+           "--out-dir=" + out_dir, module + ".tla"]
+    t0 = time.time()
+    try:
+        p = subprocess.run(cmd, cwd=SPEC, stdout=subprocess.PIPE, stderr=subprocess.STDOUT, text=True, timeout=timeout)
+    except subprocess.TimeoutExpired:
+        raise MachineryError("apalache timed out on %s" % module)
+    finally:
+        shutil.rmtree(out_dir, ignore_errors=True)
+    noerr = "The outcome is: NoError" in p.stdout
+    viol = "state invariant" in p.stdout and "violated" in p.stdout
+    log("apalache %s cinit=%s init=%s length=%d -> %s (%.1fs)" % (module, cinit, init, length,
+                                                                 "NoError" if noerr else ("violation" if viol else "?"),
+                                                                 time.time() - t0))
+    if (expect_error and not viol) or (not expect_error and not noerr):
+        raise MachineryError("apalache %s %s/%s length %d: unexpected outcome\n%s" % (module, cinit, init, length,
+                                                                                      p.stdout[-1500:]))
+    return {"module": module, "cfg": "%s/%s/%s/len%d" % (cinit, init, inv, length), "ok": True, "generated": 0, "distinct": 0,
+            "violated": inv if viol else None, "engine": "apalache", "wall_s": round(time.time() - t0, 1)}
+
+
 def tlc_dump_states(module, cfg, workers=4, timeout=3600):
     """Run TLC with -dump and return (result dict, list of states)."""
     d = workdir("dump", fresh=False)
